@@ -38,7 +38,7 @@ func refFlags(r spec.Ref) string {
 }
 
 var c13Schemes = []string{"", "", "http", "HTTP", "hTTps", "https", "file", "File", "ftp", "urn", "x-y+z.1"}
-var c13Hosts = []string{"", "h.example", "H.Example", "h.example:80", "h.example:443", "h.example:8080", "H.EXAMPLE:080", "[::1]", "[::1]:80", "[::1]:443", "127.0.0.1:80", "xn--e1afmkfd.example", "é.example", "h.example:"}
+var c13Hosts = []string{"", "localhost", "h.example", "LocalHost", "localhost:80", "H.Example", "h.example:80", "h.example:443", "h.example:8080", "H.EXAMPLE:080", "[::1]", "[::1]:80", "[::1]:443", "127.0.0.1:80", "xn--e1afmkfd.example", "é.example", "h.example:"}
 var c13Segs = []string{"a", "b.json", ".", "..", "c%20d", "c d", "é", "%C3%A9", "%c3%a9", "%41", "", "x;y", "a:b", "%2F", "%2f", "~", "{id}", "a%25b", "a+b", "a&b=c", "A", "a^b", "a|b", "a\"b", "a<b>", "a\\b", "%7Euser", "%7euser", "a@b"}
 var c13Frags = []string{"", "#", "#/", "#/definitions/a", "#/a~1b/c~0d", "#/a%20b", "#/a b", "#/%7Bx%7D", "#/{x}", "#/é", "#/%C3%A9", "#frag", "#/a%25b", "#/a%2Fb", "#/^x$", "#/a\"b", "#/a`b", "#/a|b", "#/a\\b", "#/a?b", "#/a#b", "#/~", "#/~2", "#//", "#/a//b", "#?"}
 var c13Queries = []string{"", "", "", "?", "?a=b", "?a=b&c=d%20e", "?A=%c3%a9", "?a b"}
